@@ -1,0 +1,113 @@
+//go:build verif
+
+package verifhook
+
+import (
+	"fmt"
+	"reflect"
+	"sort"
+	"strings"
+)
+
+// Render prints a value structurally (following pointers, including
+// unexported fields), skipping struct fields named in skip. Zero-valued
+// fields are omitted to keep the rendering short.
+func Render(v any, skip map[string]bool) string {
+	var sb strings.Builder
+	render(&sb, addressable(reflect.ValueOf(v)), skip, 0)
+
+	return sb.String()
+}
+
+func render(sb *strings.Builder, v reflect.Value, skip map[string]bool, depth int) {
+	if depth > 40 {
+		sb.WriteString("<deep>")
+		return
+	}
+
+	switch v.Kind() {
+	case reflect.Ptr:
+		if v.IsNil() {
+			sb.WriteString("nil")
+			return
+		}
+
+		sb.WriteString("&")
+		render(sb, writable(v.Elem()), skip, depth+1)
+
+	case reflect.Interface:
+		if v.IsNil() {
+			sb.WriteString("nil")
+			return
+		}
+
+		inner := v.Elem()
+		sb.WriteString(inner.Type().String())
+		sb.WriteString(":")
+		render(sb, addressable(inner), skip, depth+1)
+
+	case reflect.Struct:
+		t := v.Type()
+		sb.WriteString("{")
+
+		for i := 0; i < t.NumField(); i++ {
+			name := t.Field(i).Name
+			if skip[name] {
+				continue
+			}
+
+			f := writable(v.Field(i))
+			if f.IsZero() {
+				continue
+			}
+
+			sb.WriteString(name)
+			sb.WriteString("=")
+			render(sb, f, skip, depth+1)
+			sb.WriteString(" ")
+		}
+
+		sb.WriteString("}")
+
+	case reflect.Slice, reflect.Array:
+		if v.Kind() == reflect.Slice && v.IsNil() {
+			sb.WriteString("nil")
+			return
+		}
+
+		sb.WriteString("[")
+
+		for i := 0; i < v.Len(); i++ {
+			if i > 0 {
+				sb.WriteString(", ")
+			}
+
+			render(sb, writable(v.Index(i)), skip, depth+1)
+		}
+
+		sb.WriteString("]")
+
+	case reflect.Map:
+		var parts []string
+
+		iter := v.MapRange()
+		for iter.Next() {
+			var kb, vb strings.Builder
+			render(&kb, addressable(iter.Key()), skip, depth+1)
+			render(&vb, addressable(iter.Value()), skip, depth+1)
+			parts = append(parts, kb.String()+": "+vb.String())
+		}
+
+		sort.Strings(parts)
+		sb.WriteString("map[" + strings.Join(parts, ", ") + "]")
+
+	case reflect.String:
+		sb.WriteString(fmt.Sprintf("%q", v.String()))
+
+	case reflect.Func, reflect.Chan, reflect.UnsafePointer:
+		sb.WriteString("<ref>")
+
+	default:
+		sb.WriteString(fmt.Sprintf("%v", v.Interface()))
+	}
+}
